@@ -340,6 +340,8 @@ def run_thorough(prop, root, seed=0, write=True):
     rep.extra["selftest"] = results
     rep.t0 = t0
     status = rep.finish(write=write)
+    for sk in results["skipped"]:
+        print("selftest %s: SKIPPED %s" % (prop, sk))
     print("selftest %s: mutants=%d killed=%d skipped=%d not_killed=%d; rewrites=%s" % (
         prop, results["mutants_total"], results["killed"], len(results["skipped"]), len(results["not_killed"]),
         results["rewrites"]))
